@@ -34,6 +34,24 @@ def pick_config(rng):
     return random_projection(rng), any_ellipsoid(rng, 0.6)
 
 
+def wrap180(lon):
+    """the longitude written in [-180, 180)"""
+    if lon >= 180:
+        return lon - 360.0
+    if lon < -180:
+        return lon + 360.0
+    return lon
+
+
+def short_way(d):
+    """a longitude difference (mpf or float, degrees) taken the short way round"""
+    if d > 180:
+        return d - 360
+    if d < -180:
+        return d + 360
+    return d
+
+
 def pick_position(rng, prj):
     """(lat, lon, zone): all four quadrants about the equator and CM, the axes, |lon - CM| up to 30 deg"""
     zw = float(prj.zonewidth)
@@ -45,8 +63,8 @@ def pick_position(rng, prj):
               else s * 10 ** rng.uniform(-10, 0) if r < 0.82 else s * rng.choice([30.0, 30 - 1e-9, zw / 2]))
         if prj is K.isg and abs(om) > 6 and rng.random() < 0.6:
             continue
-        lon = cm + om
-        if -180 <= lon < 180 and abs(lon - cm) <= 30:
+        lon = wrap180(cm + om)     # zone 60 east of +180 / zone 1 west of -180: the same meridian written in [-180, 180)
+        if abs(om) <= 30:
             break
     r = rng.random()
     lat = (rng.uniform(-80, 84) if r < 0.6 else 0.0 if r < 0.7 else rng.choice([-1, 1]) * 10 ** rng.uniform(-9, 0) if r < 0.78
@@ -116,7 +134,7 @@ def check_forward(p, lat, lon, zone, ell, prj, fd=False):
     if not ok:
         return
     cm = central_meridian(prj, r[1])
-    dlon = mpf(lon) - mpf(cm)
+    dlon = short_way(mpf(lon) - mpf(cm))
     m, g = judge(p, 'exact_forward', inp, call, prj, ell, lat, dlon, r[4], r[5], 0.0)
     if fd:
         # sign convention, independently of the analytic derivative: the grid bearing of a short step due
@@ -159,7 +177,7 @@ def check_inverse_grid(p, z, e, n, h, ell, prj, truth=None):
         lat, lon = truth
         allow = 1.6 * math.degrees(7.1e-5 / (float(prj.cmscale) * ell.semimin * math.cos(math.radians(lat))))
         p.stats.add('exact_inverse:judged-at-true-position')
-    judge(p, 'exact_inverse', inp, call, prj, ell, lat, mpf(lon) - mpf(cm), q[2], q[3], allow)
+    judge(p, 'exact_inverse', inp, call, prj, ell, lat, short_way(mpf(lon) - mpf(cm)), q[2], q[3], allow)
 
 
 def chunk_exact(p, n):
@@ -187,10 +205,11 @@ def agree(p, z, e, n, h, ell, prj):
         q = C.grid2geo(z, e, n, h, ell, prj)
         lat, lon = q[0], q[1]
         cm = central_meridian(prj, z)
-        if not (-80 <= lat <= 84 and -180 <= lon < 180 and abs(lon - cm) <= 30):
+        if not (-80 <= lat <= 84 and abs(short_way(lon - cm)) <= 30):
             p.stats.add('skipped:outside-domain')
             return
-        r = C.geo2grid(lat, lon, z, ell, prj)
+        # the same point with its longitude written in [-180, 180), which is what geo2grid accepts
+        r = C.geo2grid(lat, wrap180(lon), z, ell, prj)
     except Exception as ex:  # noqa  (C02 judges the conversions themselves)
         p.stats.add('skipped:conversion-raised')
         return
@@ -239,7 +258,7 @@ def chunk_structure(p, n):
         lat, lon, zone = pick_position(rng, prj)
         kind = prj_kind(prj)
         cm = central_meridian(prj, zone)
-        om = lon - cm
+        om = short_way(lon - cm)
         inp = {'lat': lat, 'lon': lon, 'zone': zone, 'ell': enc_ell(ell), 'prj': enc_prj(prj)}
         call = f'geo2grid({lat!r}, {lon!r}, {zone}, {src_ell(ell)}, {src_prj(prj)})[4:6]'
         try:
